@@ -105,4 +105,199 @@ VariablesEscape(D) ==
                    IN IF s.k # "process" THEN {} ELSE {<<a.of, v>> : v \in (pv \ declared) \cap others}
                    : i \in 1..Len(a.stmts)}
          : k \in 1..Len(Archs(D))}
+
+(* ---------------- C06 ---------------- *)
+Predefined == {"std_logic", "std_ulogic", "std_logic_vector", "unsigned", "signed", "boolean", "integer", "natural", "positive",
+               "resize", "to_integer", "to_unsigned", "to_signed", "rising_edge", "falling_edge", "shift_left", "shift_right",
+               "true", "false", "ieee", "std_logic_1164", "numeric_std", "work", "bit", "bit_vector", "string", "now", "time"}
+
+Dups(seq) == {seq[i] : i \in {j \in 1..Len(seq) : \E k \in 1..Len(seq) : k # j /\ seq[k] = seq[j]}}
+
+\* "every identifier is declared exactly once in its scope (case-insensitively)"
+ArchDeclNames(D, a) ==
+  LET ent == EntOf(D, a.of)
+      ports == IF ent.k = "none" THEN << >> ELSE [i \in 1..Len(ent.ports) |-> ent.ports[i].n]
+      decls == [i \in 1..Len(a.decls) |-> a.decls[i].n]
+      labels == LET ls == SelectSeq(a.stmts, LAMBDA x : x.k \in {"process", "inst"} /\ x.label # "") IN [i \in 1..Len(ls) |-> ls[i].label]
+  IN ports \o decls \o labels
+\* enumeration literals are overloadable: the same literal may belong to several enumeration types
+ArchLiterals(a) == LET es == SelectSeq(a.decls, LAMBDA d : d.k = "enum") IN
+                   IF Len(es) = 0 THEN {} ELSE UNION {{es[i].lits[j] : j \in 1..Len(es[i].lits)} : i \in 1..Len(es)}
+RECURSIVE SetAsSeq(_)
+SetAsSeq(S) == IF S = {} THEN << >> ELSE LET x == CHOOSE y \in S : TRUE IN <<x>> \o SetAsSeq(S \ {x})
+ArchRegionNames(D, a) == ArchDeclNames(D, a) \o SetAsSeq(ArchLiterals(a))
+DeclaredTwice(D) ==
+  UNION {{<<Archs(D)[k].of, n>> : n \in Dups(ArchDeclNames(D, Archs(D)[k]))
+                                      \cup (ArchLiterals(Archs(D)[k]) \cap {ArchDeclNames(D, Archs(D)[k])[i] : i \in 1..Len(ArchDeclNames(D, Archs(D)[k]))})}
+         : k \in 1..Len(Archs(D))}
+  \cup UNION {UNION {LET s == Archs(D)[k].stmts[i] IN
+                     IF s.k # "process" THEN {} ELSE {<<Archs(D)[k].of, s.label, n>> : n \in Dups([j \in 1..Len(s.decls) |-> s.decls[j].n])}
+                     : i \in 1..Len(Archs(D)[k].stmts)} : k \in 1..Len(Archs(D))}
+
+\* every name occurring in the statements of an architecture
+ArchUsedNames(a) ==
+  UNION {LET s == a.stmts[i] IN
+         CASE s.k = "process" -> StmtsNames(s.body, 1) \cup {s.sens.names[j].n : j \in 1..Len(s.sens.names)}
+           [] s.k = "cassign" -> Names(s.e) \cup Names(s.t)
+           [] s.k = "select" -> Names(s.sel) \cup Names(s.t) \cup UNION {Names(s.arms[q].e) \cup NamesSeq(SelectSeq(s.arms[q].ch, LAMBDA c : c.k # "others"), 1) : q \in 1..Len(s.arms)}
+           [] s.k = "cassert" -> Names(s.c)
+           [] s.k = "inst" -> UNION {IF s.pmap[q].a.k = "open" THEN {} ELSE Names(s.pmap[q].a) : q \in 1..Len(s.pmap)}
+           [] OTHER -> {} : i \in 1..Len(a.stmts)}
+  \cup UNION {IF a.decls[i].k \in {"signal", "constant"} /\ ~IsNone(a.decls[i].init) THEN Names(a.decls[i].init) ELSE {} : i \in 1..Len(a.decls)}
+TypeNamesUsed(D, a) ==
+  LET ent == EntOf(D, a.of) IN
+  (IF ent.k = "none" THEN {} ELSE {ent.ports[i].ty.n : i \in 1..Len(ent.ports)})
+  \cup {a.decls[i].ty.n : i \in {j \in 1..Len(a.decls) : a.decls[j].k \in {"signal", "constant"}}}
+  \cup UNION {IF a.stmts[i].k = "process" THEN {a.stmts[i].decls[j].ty.n : j \in 1..Len(a.stmts[i].decls)} ELSE {} : i \in 1..Len(a.stmts)}
+
+RECURSIVE CallNames(_), CallNamesSeq(_, _), StmtCallNames(_), StmtsCallNames(_, _)
+CallNames(e) ==
+  CASE e.k = "app" -> (IF e.f.k = "name" THEN {e.f.n} ELSE CallNames(e.f)) \cup CallNamesSeq(e.a, 1)
+    [] e.k \in {"paren", "un", "qual"} -> CallNames(e.e)
+    [] e.k = "bin" -> CallNames(e.l) \cup CallNames(e.r)
+    [] e.k = "slice" -> CallNames(e.p) \cup CallNames(e.l) \cup CallNames(e.r)
+    [] e.k = "agg" -> UNION {CallNames(e.items[j].e) : j \in 1..Len(e.items)}
+    [] OTHER -> {}
+CallNamesSeq(es, i) == IF i > Len(es) THEN {} ELSE CallNames(es[i]) \cup CallNamesSeq(es, i + 1)
+StmtCallNames(s) ==
+  CASE s.k \in {"vassign", "sassign"} -> CallNames(s.e) \cup CallNames(s.t)
+    [] s.k = "if" -> CallNames(s.c) \cup StmtsCallNames(s.th, 1) \cup StmtsCallNames(s.el, 1)
+    [] s.k = "case" -> CallNames(s.e) \cup UNION {StmtsCallNames(s.arms[a].b, 1) : a \in 1..Len(s.arms)}
+    [] s.k = "assert" -> CallNames(s.c)
+    [] OTHER -> {}
+StmtsCallNames(ss, i) == IF i > Len(ss) THEN {} ELSE StmtCallNames(ss[i]) \cup StmtsCallNames(ss, i + 1)
+ArchCallNames(a) ==
+  UNION {LET s == a.stmts[i] IN
+         CASE s.k = "process" -> StmtsCallNames(s.body, 1)
+           [] s.k = "cassign" -> CallNames(s.e) \cup CallNames(s.t)
+           [] s.k = "select" -> CallNames(s.sel) \cup UNION {CallNames(s.arms[q].e) : q \in 1..Len(s.arms)}
+           [] OTHER -> {} : i \in 1..Len(a.stmts)}
+
+\* "never hides a predefined name the emitted text itself relies on"
+HidesPredefined(D) ==
+  UNION {LET a == Archs(D)[k]
+             declared == {ArchRegionNames(D, a)[i] : i \in 1..Len(ArchRegionNames(D, a))}
+                         \cup UNION {IF a.stmts[i].k = "process" THEN ProcVars(a.stmts[i]) ELSE {} : i \in 1..Len(a.stmts)}
+             \* names the text relies on as predefined: type marks, and names in call position
+             relied == (TypeNamesUsed(D, a) \cup ArchCallNames(a) \cup ({"true", "false"} \cap ArchUsedNames(a))) \cap Predefined
+         IN {<<a.of, n>> : n \in declared \cap relied} : k \in 1..Len(Archs(D))}
+
+\* every name used is declared and visible ("the same object is always referred to by the same name")
+Undeclared(D) ==
+  UNION {LET a == Archs(D)[k]
+             region == {ArchRegionNames(D, a)[i] : i \in 1..Len(ArchRegionNames(D, a))}
+         IN UNION {LET s == a.stmts[i]
+                       used == CASE s.k = "process" -> StmtsNames(s.body, 1) \cup {s.sens.names[j].n : j \in 1..Len(s.sens.names)}
+                                 [] s.k = "cassign" -> Names(s.e) \cup Names(s.t)
+                                 [] s.k = "select" -> Names(s.sel) \cup Names(s.t) \cup UNION {Names(s.arms[q].e) \cup NamesSeq(SelectSeq(s.arms[q].ch, LAMBDA c : c.k # "others"), 1) : q \in 1..Len(s.arms)}
+                                 [] s.k = "cassert" -> Names(s.c)
+                                 [] s.k = "inst" -> UNION {IF s.pmap[q].a.k = "open" THEN {} ELSE Names(s.pmap[q].a) : q \in 1..Len(s.pmap)}
+                                 [] OTHER -> {}
+                       local == IF s.k = "process" THEN ProcVars(s) ELSE {}
+                   IN {<<a.of, n>> : n \in used \ (region \cup local \cup Predefined)} : i \in 1..Len(a.stmts)}
+         : k \in 1..Len(Archs(D))}
+
+\* "output ports are never read"
+RECURSIVE ReadNames(_)
+ReadNames(s) == CASE s.k = "process" -> StmtsReads(s.body, 1)
+                  [] s.k = "cassign" -> Names(s.e) \cup TargetIndexNames(s.t)
+                  [] s.k = "select" -> Names(s.sel) \cup TargetIndexNames(s.t) \cup UNION {Names(s.arms[q].e) : q \in 1..Len(s.arms)}
+                  [] s.k = "cassert" -> Names(s.c)
+                  [] OTHER -> {}
+OutPortRead(D) ==
+  UNION {LET a == Archs(D)[k]
+             ent == EntOf(D, a.of)
+             outs == IF ent.k = "none" THEN {} ELSE {ent.ports[i].n : i \in {j \in 1..Len(ent.ports) : ent.ports[j].mode = "out"}}
+             inst_in(s) == LET ce == EntOf(D, s.entity) IN
+                           IF ce.k = "none" THEN {} ELSE
+                           UNION {IF s.pmap[q].a.k # "open" /\ s.pmap[q].f.k = "name" /\ (\E pp \in 1..Len(ce.ports) : ce.ports[pp].n = s.pmap[q].f.n /\ ce.ports[pp].mode = "in")
+                                  THEN Names(s.pmap[q].a) ELSE {} : q \in 1..Len(s.pmap)}
+         IN {<<a.of, n>> : n \in outs \cap UNION {IF a.stmts[i].k = "inst" THEN inst_in(a.stmts[i])
+                                                   ELSE ReadNames(a.stmts[i]) \ (IF a.stmts[i].k = "process" THEN ProcVars(a.stmts[i]) ELSE {})
+                                                   : i \in 1..Len(a.stmts)}}
+         : k \in 1..Len(Archs(D))}
+
+\* "case statements have distinct choices and an others branch"
+RECURSIVE CaseDefectsIn(_), CaseDefectsSeq(_, _)
+ChoiceList(arms) == FoldSeq(LAMBDA acc, arm : acc \o arm.ch, << >>, arms, 1)
+ArmsDefect(arms) == (\A i \in 1..Len(ChoiceList(arms)) : ChoiceList(arms)[i].k # "others")
+                    \/ (\E i, j \in 1..Len(ChoiceList(arms)) : i # j /\ ChoiceList(arms)[i] = ChoiceList(arms)[j])
+CaseDefectsIn(s) ==
+  CASE s.k = "case" -> (IF ArmsDefect(s.arms) THEN {s.e} ELSE {}) \cup UNION {CaseDefectsSeq(s.arms[a].b, 1) : a \in 1..Len(s.arms)}
+    [] s.k = "if" -> CaseDefectsSeq(s.th, 1) \cup CaseDefectsSeq(s.el, 1)
+    [] OTHER -> {}
+CaseDefectsSeq(ss, i) == IF i > Len(ss) THEN {} ELSE CaseDefectsIn(ss[i]) \cup CaseDefectsSeq(ss, i + 1)
+CaseDefects(D) ==
+  UNION {UNION {LET s == Archs(D)[k].stmts[i] IN
+                IF s.k = "process" THEN {<<Archs(D)[k].of, s.label>> : x \in CaseDefectsSeq(s.body, 1)}
+                ELSE IF s.k = "select" /\ ArmsDefect(s.arms) THEN {<<Archs(D)[k].of, "select">>} ELSE {}
+                : i \in 1..Len(Archs(D)[k].stmts)} : k \in 1..Len(Archs(D))}
+
+\* "every process has a non-empty sensitivity list that, for processes not guarded by a clock edge, contains every
+\*  signal the process reads": signals read outside the regions guarded by an edge condition must be listed
+RECURSIVE HasEdge(_)
+HasEdge(e) == CASE e.k = "app" -> (e.f.k = "name" /\ e.f.n \in {"rising_edge", "falling_edge"}) \/ \E i \in 1..Len(e.a) : HasEdge(e.a[i])
+                [] e.k = "bin" -> HasEdge(e.l) \/ HasEdge(e.r)
+                [] e.k \in {"paren", "un"} -> HasEdge(e.e)
+                [] OTHER -> FALSE
+RECURSIVE UnguardedReads(_), UnguardedReadsSeq(_, _)
+UnguardedReads(s) ==
+  CASE s.k = "if" -> IF HasEdge(s.c) THEN (Names(s.c) \cup UnguardedReadsSeq(s.el, 1)) ELSE Names(s.c) \cup UnguardedReadsSeq(s.th, 1) \cup UnguardedReadsSeq(s.el, 1)
+    [] s.k = "case" -> Names(s.e) \cup UNION {UnguardedReadsSeq(s.arms[a].b, 1) : a \in 1..Len(s.arms)}
+    [] OTHER -> StmtReads(s)
+UnguardedReadsSeq(ss, i) == IF i > Len(ss) THEN {} ELSE UnguardedReads(ss[i]) \cup UnguardedReadsSeq(ss, i + 1)
+SensitivityDefects(D) ==
+  UNION {LET a == Archs(D)[k]
+             sc == ScopeOf(EntOf(D, a.of), a)
+         IN UNION {LET s == a.stmts[i]
+                       listed == {s.sens.names[j].n : j \in 1..Len(s.sens.names)}
+                       needed == (UnguardedReadsSeq(s.body, 1) \ ProcVars(s)) \cap sc.signames
+                   IN IF s.k # "process" \/ s.sens.all = 1 THEN {}
+                      ELSE (IF listed = {} THEN {<<a.of, s.label, "empty sensitivity list">>} ELSE {})
+                           \cup {<<a.of, s.label, n>> : n \in needed \ listed}
+                   : i \in 1..Len(a.stmts)}
+         : k \in 1..Len(Archs(D))}
+
+\* typing: every statement of every branch of every process / concurrent statement is evaluated once against typed
+\* (all-zero) values; an error that depends on the values only is ignored, any other error is a typing defect
+ValueDependent == {"rt:division by zero", "rt:index out of range", "rt:slice out of range", "rt:negative value for natural operand",
+                   "rt:to_unsigned of negative value", "rt:negative shift count (natural)", "rt:no case alternative selected",
+                   "rt:negative size", "rt:aggregate choice out of range", "uninit"}
+RECURSIVE ExecAll(_, _, _, _)
+ExecAllStmt(s, st, env) ==
+  LET clr(r) == IF r.err \in ValueDependent THEN [r EXCEPT !.err = ""] ELSE r IN
+  CASE s.k = "if" ->
+         LET c == Eval(s.c, st.var, env) IN
+         IF IsErr(c) THEN clr([st EXCEPT !.err = c.v])
+         ELSE IF c.t # "bool" THEN [st EXCEPT !.err = "type:condition must be boolean"]
+         ELSE ExecAll(s.el, 1, ExecAll(s.th, 1, st, env), env)
+    [] s.k = "case" ->
+         LET sel == Eval(s.e, st.var, env)
+             chk(arm) == \A j \in 1..Len(arm.ch) : arm.ch[j].k = "others" \/
+                           LET cv == Eval(arm.ch[j], st.var, env) IN ~IsErr(cv) /\ ~IsErr(Relational("=", sel, cv))
+         IN IF IsErr(sel) THEN clr([st EXCEPT !.err = sel.v])
+            ELSE IF \E a \in 1..Len(s.arms) : ~chk(s.arms[a]) THEN [st EXCEPT !.err = "type:case choice does not match the selector type"]
+            ELSE FoldSeq(LAMBDA acc, arm : ExecAll(arm.b, 1, acc, env), st, s.arms, 1)
+    [] OTHER -> clr(ExecStmt(s, st, env))
+ExecAll(stmts, i, st, env) ==
+  IF i > Len(stmts) \/ st.err # "" THEN st ELSE ExecAll(stmts, i + 1, ExecAllStmt(stmts[i], st, env), env)
+
+TypeDefects(D, top) ==
+  LET F == Elab(D, top, {})
+      zero(v) == IF IsVec(v) THEN V(v.t, Zeros(Len(v.v))) ELSE IF v.t = "sl" THEN VSl(0) ELSE v
+      sig0 == [g \in DOMAIN F.sigs |-> zero(F.sigs[g])]
+  IN IF F.err # "" THEN {<<"elaboration", F.err>>}
+     ELSE UNION {LET P == F.procs[p]
+                     env == [sig |-> sig0, prev |-> sig0, changed |-> {}, sc |-> P.sc, shape |-> P.shape, gn |-> P.gn, cls |-> P.cls]
+                     st0 == [var |-> [n \in DOMAIN P.vars |-> IF IsErr(P.vars[n]) THEN P.vars[n] ELSE zero(IF n \in P.poison THEN P.shape[n] ELSE P.vars[n])],
+                             wr |-> << >>, err |-> "", fired |-> {}, ret |-> NoRet]
+                     r == CASE P.kind = "process" -> ExecAll(P.node.body, 1, st0, env)
+                            [] P.kind = "cassign" -> ExecAllStmt([k |-> "sassign", t |-> P.node.t, e |-> P.node.e], st0, env)
+                            [] P.kind = "select" -> ExecAllStmt([k |-> "case", e |-> P.node.sel,
+                                                       arms |-> [a \in 1..Len(P.node.arms) |-> [ch |-> P.node.arms[a].ch,
+                                                                   b |-> <<[k |-> "sassign", t |-> P.node.t, e |-> P.node.arms[a].e]>>]]], st0, env)
+                            [] P.kind = "cassert" -> ExecAllStmt([k |-> "assert", c |-> P.node.c, m |-> P.node.m], st0, env)
+                            [] OTHER -> RunProc(F, p, [sig |-> sig0, var |-> [q \in 1..Len(F.procs) |-> F.procs[q].vars], err |-> "", fired |-> {}], sig0, {})
+                 IN IF r.err = "" \/ r.err \in ValueDependent THEN {} ELSE {<<P.kind, P.label, r.err>>}
+                 : p \in 1..Len(F.procs)}
 =============================================================================
